@@ -8,6 +8,7 @@ from verif import Infra, log
 TRACE_CFG = """SPECIFICATION TraceSpec
 CONSTANTS MaxLen = 0 MaxDepth = 100000000 Alpha = {}
 Mode = "%s"
+MaxBad = 3000
 CHECK_DEADLOCK FALSE
 POSTCONDITION Post
 """
